@@ -1,8 +1,10 @@
 SPECIFICATION Spec
 CONSTANTS
+  RoutingKeysLast = TRUE
+  ReplicaUsesRowDb = TRUE
   CsvFallsThrough = FALSE
   MaxDecoys = 2
   AllPairs = FALSE
   Emit = FALSE
-INVARIANTS TypeOK LiveOK RejectedStoresNothing
+INVARIANTS TypeOK LiveOK ReplayOK ReplicaOK RejectedStoresNothing
 CHECK_DEADLOCK FALSE
